@@ -85,10 +85,10 @@ def universes(tier):
             # Piola mapped vector sub-element first, immersed mesh
             Uni("me-curl", "element", [(3,), ()], [(3,), ()], [f, X3], {"add", "mul", "inner"}, 2, EB, vkinds=["curl", "P"], ukinds=["curl", "P"], gdim=3,
                 exclude=noacts + ("v", "u", "v[0]", "v[2]", "u[0]", "u[1]")),
-            Uni("deep-me-sym", "element", [T, (2,), ()], [T, (2,), ()], [f, W2, G], deep_ops, 0, EB, keypairs=[(1, 2), (3, 4)], vkinds=["sym", "P", "P"], ukinds=["sym", "P", "P"], exclude=noacts, simulate=1000, depth=5, nenv=1),
-            Uni("deep-me-sym-rect", "element", [(), T, (2,)], [T, T, ()], [f, W2, G], deep_ops, 0, EB, keypairs=[(1, 2)], vkinds=["P", "sym", "P"], ukinds=["sym", "sym", "P"], exclude=noacts, simulate=700, depth=5, nenv=1),
-            Uni("deep-me-curl", "element", [(3,), (), (3,)], [(), (3,), (3,)], [f, X3], deep_ops, 0, EB, keypairs=[(1, 2)], vkinds=["curl", "P", "P"], ukinds=["P", "curl", "curl"], gdim=3, exclude=noacts, simulate=700, depth=5, nenv=1),
-            Uni("deep-me-refsize", "element", [(), T, (2,)], [(3,), ()], [f, W2, X3, G], deep_ops, 0, EB, keypairs=[(1, 2), (3, 4)], vkinds=["P", "sym", "P"], ukinds=["curl", "P"], gdim=3, exclude=noacts, simulate=1000, depth=5, nenv=1),
+            Uni("deep-me-sym", "element", [T, (2,), ()], [T, (2,), ()], [f, W2, G], deep_ops, 0, EB, keypairs=[(1, 2), (3, 4)], vkinds=["sym", "P", "P"], ukinds=["sym", "P", "P"], exclude=noacts, simulate=700, depth=5, nenv=1),
+            Uni("deep-me-sym-rect", "element", [(), T, (2,)], [T, T, ()], [f, W2, G], deep_ops, 0, EB, keypairs=[(1, 2)], vkinds=["P", "sym", "P"], ukinds=["sym", "sym", "P"], exclude=noacts, simulate=500, depth=5, nenv=1),
+            Uni("deep-me-curl", "element", [(3,), (), (3,)], [(), (3,), (3,)], [f, X3], deep_ops, 0, EB, keypairs=[(1, 2)], vkinds=["curl", "P", "P"], ukinds=["P", "curl", "curl"], gdim=3, exclude=noacts, simulate=500, depth=5, nenv=1),
+            Uni("deep-me-refsize", "element", [(), T, (2,)], [(3,), ()], [f, W2, X3, G], deep_ops, 0, EB, keypairs=[(1, 2), (3, 4)], vkinds=["P", "sym", "P"], ukinds=["curl", "P"], gdim=3, exclude=noacts, simulate=700, depth=5, nenv=1),
         ]
     if q:
         # 3 sub-spaces, two integrals, deeper terms: sampled programs, purely bilinear / linear by
